@@ -46,7 +46,7 @@ def gen_exhaustive(tier, seed):
     return out
 
 
-PROFILE = dict(p_fail=0.35, p_foreign=0.03, p_wait=0.10, p_settle=0.8, max_subs=8)
+PROFILE = dict(p_fail=0.35, p_foreign=0.03, p_wait=0.10, p_settle=0.8, max_subs=8, waits='WWwwBb')
 
 
 def gen_random(tier, seed):
